@@ -1622,7 +1622,23 @@ def seq_expected(lib, oc, d, default_hn, op, res):
         digest, allow = bytes.fromhex(op["digest"]), op["allow"]
     rr, ss = dec(res[1], n)
     e = oc.e_of(digest) if allow else int.from_bytes(digest, "big")
-    return res if oc.verify(Q, e, rr, ss) else ("sig-does-not-verify",)
+    if not oc.verify(Q, e, rr, ss):
+        return ("sig-does-not-verify",)
+    if op["op"] == "sign_deterministic" or (op["op"] == "sign_digest_deterministic" and allow):
+        # ... and is the one RFC 6979 (3.2, with the additional data of 3.6 when given) determines
+        extra = bytes.fromhex(op.get("extra", "")) if op["op"] == "sign_deterministic" else b""
+        for skip in range(4):
+            k = o_generate_k(n, d, digest, eff, extra, skip)
+            R = oc.mulG(k)
+            r0 = R[0] % n if R is not None else 0
+            s0 = pow(k, -1, n) * (e + d * r0) % n
+            if r0 and s0:
+                break
+        if op["canon"] and s0 > n // 2:
+            s0 = n - s0
+        if (rr, ss) != (r0, s0):
+            return ("not-the-rfc6979-signature (extra data %s): got r=%x s=%x, RFC 6979 gives r=%x s=%x" % (extra.hex() or "none", rr, ss, r0, s0),)
+    return res
 
 
 def seq_play(lib, oc, d, default_hn, ops, verbose=False):
@@ -1630,9 +1646,17 @@ def seq_play(lib, oc, d, default_hn, ops, verbose=False):
     fresh key objects and with the independent expectation.  Returns (index, why) or None."""
     c = oc.curve
     dh = getattr(hashlib, default_hn)
-    sk = lib.keys.SigningKey.from_secret_exponent(d, c, hashfunc=dh)
+    sk0 = lib.keys.SigningKey.from_secret_exponent(d, c, hashfunc=dh)
+    how = (d + len(ops)) % 6      # the long-lived key comes from one of the constructors that take a default hash
+    SK, VK = lib.keys.SigningKey, lib.keys.VerifyingKey
+    sk = [lambda: sk0, lambda: SK.from_string(sk0.to_string(), c, hashfunc=dh), lambda: SK.from_der(sk0.to_der(), hashfunc=dh),
+          lambda: SK.from_pem(sk0.to_pem(), hashfunc=dh), lambda: SK.from_pem(sk0.to_pem(format="pkcs8"), hashfunc=dh),
+          lambda: SK.from_der(sk0.to_der(format="pkcs8"), hashfunc=dh)][how]()
     vk = sk.get_verifying_key()
-    vk2 = lib.keys.VerifyingKey.from_string(vk.to_string(), c, hashfunc=dh)     # a second long-lived object
+    vk2 = [lambda: VK.from_string(vk.to_string(), c, hashfunc=dh), lambda: VK.from_der(vk.to_der(), hashfunc=dh),
+           lambda: VK.from_pem(vk.to_pem(), hashfunc=dh)][how % 3]()     # a second long-lived object
+    if verbose:
+        print("   long-lived SigningKey constructor #%d, VerifyingKey constructor #%d" % (how, how % 3))
     for i, op in enumerate(ops):
         fsk = lib.keys.SigningKey.from_secret_exponent(d, c, hashfunc=dh)
         fresh = seq_run_op(lib, fsk, fsk.get_verifying_key(), c, op)
